@@ -10,14 +10,20 @@ Open Scope string_scope.
 Definition ch (n : nat) : ascii := ascii_of_nat n.
 Definition str1 (c : ascii) : string := String c EmptyString.
 
-Definition c_dollar := ch 36.
-Definition c_btick := ch 96.
-Definition c_space := ch 32.
-Definition c_eq := ch 61.
-Definition c_lbrace := ch 123.
-Definition c_rbrace := ch 125.
-Definition c_dquote := ch 34.
-Definition c_bslash := ch 92.
+Definition c_dollar := Eval compute in ch 36.
+Definition c_btick := Eval compute in ch 96.
+Definition c_space := Eval compute in ch 32.
+Definition c_eq := Eval compute in ch 61.
+Definition c_lbrace := Eval compute in ch 123.
+Definition c_rbrace := Eval compute in ch 125.
+Definition c_dquote := Eval compute in ch 34.
+Definition c_bslash := Eval compute in ch 92.
+Definition c_comma := Eval compute in ch 44.
+Definition c_nul := Eval compute in ch 0.
+Definition c_minus := Eval compute in ch 45.
+(* character classes are decided on the binary code (N), not on a unary nat *)
+Definition code (c : ascii) : N := N_of_ascii c.
+Definition between (lo hi : N) (n : N) : bool := N.leb lo n && N.leb n hi.
 
 Definition aeqb (a b : ascii) : bool := Ascii.eqb a b.
 
@@ -46,10 +52,16 @@ Definition contains_char (c : ascii) (s : string) : bool := existsb_str (aeqb c)
 
 (* ASCII white space: \t \n \v \f \r and space *)
 Definition is_space (c : ascii) : bool :=
-  let n := nat_of_ascii c in (Nat.eqb n 32) || ((Nat.leb 9 n) && (Nat.leb n 13)).
+  let n := code c in (N.eqb n 32) || between 9 13 n.
 
+(* A..Z = 0x41..0x5A: bits 7..5 = 010 and the low five bits in 1..26 *)
 Definition lower_char (c : ascii) : ascii :=
-  let n := nat_of_ascii c in if (Nat.leb 65 n) && (Nat.leb n 90) then ascii_of_nat (n + 32) else c.
+  match c with
+  | Ascii b0 b1 b2 b3 b4 false true false =>
+      if (b0 || b1 || b2 || b3 || b4) && negb (b4 && b3 && (b2 || (b1 && b0)))
+      then Ascii b0 b1 b2 b3 b4 true true false else c
+  | _ => c
+  end.
 Fixpoint lower (s : string) : string :=
   match s with EmptyString => EmptyString | String c r => String (lower_char c) (lower r) end.
 
@@ -113,7 +125,7 @@ Definition replace_all (old new s : string) : string :=
   if is_empty old then s else replace_all_aux (S (slen s)) old new s.
 
 (* decimal rendering (strconv.Itoa / %v of an int) *)
-Definition digit (n : nat) : ascii := ascii_of_nat (48 + n).
+Definition digit (n : nat) : ascii := ascii_of_N (48 + N.of_nat n).
 Fixpoint pos_digits (fuel : nat) (n : N) (acc : string) : string :=
   match fuel with
   | O => acc
@@ -126,17 +138,17 @@ Definition string_of_Z (z : Z) : string :=
   match z with
   | Z0 => "0"
   | Zpos p => string_of_N (Npos p)
-  | Zneg p => String (ch 45) (string_of_N (Npos p))
+  | Zneg p => String c_minus (string_of_N (Npos p))
   end.
 Definition string_of_nat (n : nat) : string := string_of_N (N.of_nat n).
 
 (* ---- os.Expand / os.ExpandEnv (GOROOT/src/os/env.go) ------------------------------------------- *)
 Definition is_alnum (c : ascii) : bool :=
-  let n := nat_of_ascii c in
-  (Nat.eqb n 95) || ((Nat.leb 48 n) && (Nat.leb n 57)) || ((Nat.leb 97 n) && (Nat.leb n 122)) || ((Nat.leb 65 n) && (Nat.leb n 90)).
+  let n := code c in
+  (N.eqb n 95) || between 48 57 n || between 97 122 n || between 65 90 n.
 Definition is_special_var (c : ascii) : bool :=
-  let n := nat_of_ascii c in
-  ((Nat.leb 48 n) && (Nat.leb n 57)) || existsb (Nat.eqb n) [42; 35; 36; 64; 33; 63; 45].
+  let n := code c in
+  between 48 57 n || existsb (N.eqb n) [42; 35; 36; 64; 33; 63; 45]%N.
 
 Fixpoint take_while (f : ascii -> bool) (s : string) : string * string :=
   match s with
@@ -247,8 +259,8 @@ Fixpoint sleb (a b : string) : bool :=
   | EmptyString, _ => true
   | String _ _, EmptyString => false
   | String x a', String y b' =>
-      let nx := nat_of_ascii x in let ny := nat_of_ascii y in
-      if Nat.ltb nx ny then true else if Nat.ltb ny nx then false else sleb a' b'
+      let nx := code x in let ny := code y in
+      if N.ltb nx ny then true else if N.ltb ny nx then false else sleb a' b'
   end.
 Fixpoint insert_sorted {A} (le : A -> A -> bool) (x : A) (l : list A) : list A :=
   match l with [] => [x] | y :: r => if le x y then x :: l else y :: insert_sorted le x r end.
